@@ -120,6 +120,9 @@ def strategy(tier):
         # with the simple client's own disconnect() - whatever state the
         # connection is in at that moment
         'final_by': st.sampled_from(['server', 'server', 'app']),
+        # (application disconnect during a reconnection: an attempt is in
+        # flight, and the server accepts it afterwards)
+        'late_accept': st.booleans(),
         # after the connection has ended for good the application calls
         # connect() again on the same simple client: nothing of the first
         # connection may change how the second one behaves
@@ -952,15 +955,41 @@ def _check_async(case):
                     labels['application_disconnects_during_reconnection'] \
                         = True
                     labels['nontrivial'] = True
+                in_flight = False
+                if live and case.get('late_accept') and \
+                        h.eio.state != 'connected':
+                    # the next attempt of the effort starts (its CONNECT is
+                    # on its way) before the application disconnects; the
+                    # server's acceptance arrives afterwards
+                    h.plan[:] = ['ok']
+                    loop.run_until_idle()
+                    loop.advance()
+                    in_flight = h.eio.state == 'connected' and \
+                        '/ns' not in h.sio.namespaces
                 n_att = len(h.attempts)
                 dt = loop.spawn(sc.disconnect())
                 loop.run_until_idle()
+                if in_flight and h.eio.state == 'connected' and \
+                        '/ns' not in h.sio.namespaces:
+                    nconn[0] += 1
+                    for f in wire.frames(wire.CONNECT, '/ns', None,
+                                         {'sid': 'sid%d' % nconn[0]}):
+                        h.deliver(f)
+                    loop.run_until_idle()
+                    labels['accepted_after_the_application_disconnected'] = \
+                        True
                 for _ in range(6):
                     # (an attempt that is in flight is waited for)
                     if dt.done() or not loop.advance():
                         break
                 if not dt.done() or dt.exception() is not None:
                     raise Violation('disconnect-failed', repr(dt))
+                if h.eio.state == 'connected':
+                    raise Violation('connection-left-up-after-disconnect',
+                                    'disconnect() of the simple client has '
+                                    'returned; the transport is connected, '
+                                    'namespaces %r' % (dict(
+                                        h.sio.namespaces),))
                 for _ in range(4):
                     if not loop.advance():
                         break
